@@ -1,6 +1,7 @@
 package vlib
 
 import (
+	"github.com/sdcio/data-server/pkg/datastore/target"
 	"context"
 	"encoding/json"
 	"fmt"
@@ -775,6 +776,9 @@ type HistEnv struct {
 type HistEnvOpts struct {
 	Validation *config.Validation
 	DS         DSOpts
+	// WrapTarget, if set, supplies the southbound target the datastore talks
+	// to (it is expected to forward successful changes to the device).
+	WrapTarget func(dev *Device) target.Target
 }
 
 // NewHistEnv builds a fresh datastore + device for a case and installs the
@@ -803,7 +807,11 @@ func NewHistEnv(ctx context.Context, env *Env, c *HistCase, o HistEnvOpts) (*His
 	if dso.Validation == nil {
 		dso.Validation = o.Validation
 	}
-	ds := env.NewDatastore(ctx, dev, dso)
+	var tgt target.Target = dev
+	if o.WrapTarget != nil {
+		tgt = o.WrapTarget(dev)
+	}
+	ds := env.NewDatastore(ctx, tgt, dso)
 	cc := dso.Cache
 	if cc == nil {
 		cc = env.Cache
